@@ -17,7 +17,7 @@ pub fn registry(property: &str) -> Option<CheckSpec> {
         "C25" => Some(CheckSpec {
             property: "C25",
             level: "exploration",
-            parts: vec![Part::new(feed::FeedHistory, 15_000, 300_000)],
+            parts: vec![Part::new(feed::FeedHistory, 45_000, 700_000)],
             assumptions: vec![
                 "reports are unsigned: the mock Chainlink verifier program accepts every well-framed report".into(),
                 "report timestamps are u32 (Chainlink schema), so feed timestamps beyond 2106 are unreachable on chain".into(),
@@ -26,7 +26,7 @@ pub fn registry(property: &str) -> Option<CheckSpec> {
         "C28" => Some(CheckSpec {
             property: "C28",
             level: "fault_enumeration",
-            parts: vec![Part::new(decode::DecodeFaults, 6_000, 120_000)],
+            parts: vec![Part::new(decode::DecodeFaults, 2_800, 42_000)],
             assumptions: vec![
                 "the ABI-described slice of `(bytes32[3], bytes)` is payload[offset+32 .. offset+32+length] with the full 256-bit offset and length words, offset >= 128 (dynamic data cannot overlap the four head words)".into(),
                 "snappy length prefixes above 2^24 are not injected (a 4 GiB zeroed allocation is the decompressor's, not the decoder's, behaviour)".into(),
@@ -36,7 +36,7 @@ pub fn registry(property: &str) -> Option<CheckSpec> {
         "C26" => Some(CheckSpec {
             property: "C26",
             level: "exploration",
-            parts: vec![Part::new(decimals::DecimalSweep, 15_000, 300_000)],
+            parts: vec![Part::new(decimals::DecimalSweep, 28_000, 420_000)],
             assumptions: vec![
                 "on chain the provider price is an 18-decimals Chainlink report value (< 2^127); other provider decimals (0..40) and the full u128 range are only driven through direct calls of Decimal::try_from_price".into(),
                 "the precision step of a token is 10^(20 - token decimals - precision) in unit-price terms (price per base unit scaled by 10^20)".into(),
@@ -45,7 +45,7 @@ pub fn registry(property: &str) -> Option<CheckSpec> {
         "C24" => Some(CheckSpec {
             property: "C24",
             level: "exploration",
-            parts: vec![Part::new(accept::OracleUse, 12_000, 240_000)],
+            parts: vec![Part::new(accept::OracleUse, 9_000, 135_000)],
             assumptions: vec![
                 "only custom Chainlink Data Streams feeds are simulated (Pyth / Switchboard accounts are not), so the reference price is always the report's own mid price".into(),
                 "the configured deviation is floor(reference unit price x factor / 10^20) rounded up to one precision step of the token; when that floor is 0 the program documents that the check is skipped and no demand is made".into(),
@@ -56,7 +56,7 @@ pub fn registry(property: &str) -> Option<CheckSpec> {
         "C29" => Some(CheckSpec {
             property: "C29",
             level: "exploration",
-            parts: vec![Part::new(accept::OracleUse, 12_000, 240_000)],
+            parts: vec![Part::new(accept::OracleUse, 8_500, 128_000)],
             assumptions: vec![
                 "only the explicit-reference path (the report's own mid price) is reachable with custom feeds; the implicit mid-of-min/max reference of Pyth / Switchboard feeds is not simulated".into(),
                 "adjusted prices are observed through set_prices_from_price_feed (the Oracle account keeps them); inside executing instructions they are not observable".into(),
@@ -65,7 +65,7 @@ pub fn registry(property: &str) -> Option<CheckSpec> {
         "C27" => Some(CheckSpec {
             property: "C27",
             level: "exploration",
-            parts: vec![Part::new(openness::Openness, 15_000, 300_000)],
+            parts: vec![Part::new(openness::Openness, 30_000, 450_000)],
             assumptions: vec![
                 "chain part only: report timestamps are u32 and the cluster clock is non-decreasing, so the 64-bit extremes of is_market_open are covered by the unit-level timeline simulation (unitsim), not here".into(),
                 "on chain the close timeout is the token's heartbeat_duration and the last-update difference is stored in whole seconds (ceil)".into(),
